@@ -81,5 +81,14 @@ package core
 //@     invariant 0 <= i && i <= 3 && len(w) == 3 && len(wArr) == 3
 //@   loop 2:
 //@     invariant 0 <= i && mod(i, 2) == 0 && mod(len(index), 2) == 0 && len(w) == 3 && w[0] >= 0 && w[1] >= 0 && w[2] >= 0 && w[0] + w[1] + w[2] > 0 && 0 <= dataOffset && dataOffset <= len(data)
+//@     decreases len(index) - i
 //@   loop 3:
 //@     invariant 0 <= j && len(w) == 3 && w[0] >= 0 && w[1] >= 0 && w[2] >= 0 && w[0] + w[1] + w[2] > 0 && 0 <= dataOffset && dataOffset <= len(data) && 0 <= i && i + 1 < len(index)
+//@     decreases count - j
+
+// The /Prev chain is followed newest first and returned oldest first; the walk must terminate on every file,
+// including one whose /Prev entries form a cycle.
+//@ func (*XRefParser) ParseAllXRefs results (tables, err)
+//@   property C02
+//@   loop 0:
+//@     invariant len(tables) >= 1
